@@ -165,7 +165,9 @@ func (s *pairSys) Step(op int) bfs.StepResult {
 		det.DumpDiff = fsx.DiffLines(ld, wd)
 	}
 
-	var viols []bfs.Viol
+	var (
+		viols []bfs.Viol
+	)
 
 	add := func(kind, what string) {
 		b, _ := json.Marshal(det)
@@ -225,6 +227,21 @@ func (s *pairSys) Step(op int) bfs.StepResult {
 				add("error-class", what)
 			}
 
+			// which of the two not-found values of the Windows type (errmap.go
+			// "Which of the two not-found values"): decided by the class of the
+			// responsible operand in the tree before the call
+			for _, f := range notFoundFindings(pc, operands, lr, wr) {
+				// the class is a fact of the Linux-typed tree: the Windows-typed
+				// instance's own Lstat of that directory has to state the same fact
+				// (an emulation may keep entries no listing shows; what it answers
+				// then is not this rule's business)
+				if s.winDirMissing(pc, f) != (f.class == clsParentMissing || f.dirItself) {
+					continue
+				}
+
+				add("error-value", f.what)
+			}
+
 			// the correspondence of the error NUMBERS (Errors.SetOSType) is
 			// informational (VERIF_C17_ERRCLASS=1 lists it)
 			if errClassReport && !classCompatible(c.Op, lr.Kind, wr.Kind, lr.Fam, wr.Fam) {
@@ -267,6 +284,38 @@ func (s *pairSys) Step(op int) bfs.StepResult {
 		Changed: changed, Key: key, Broken: diverged || poisoned, Rebuild: poisoned,
 		Outcome: outcome, Viols: viols,
 	}
+}
+
+// baseKind is the file system of a system name kind[@D][+tree][+sys].
+func baseKind(kind string) string {
+	if i := strings.IndexAny(kind, "@+"); i >= 0 {
+		return kind[:i]
+	}
+
+	return kind
+}
+
+// winDirMissing asks the Windows-typed instance itself whether the directory
+// of the responsible operand of c (CreateTemp: the operand, a directory,
+// itself) is missing: Lstat, which changes nothing.
+func (s *pairSys) winDirMissing(c fsx.Call, f notFoundFinding) (missing bool) {
+	cc := s.w.concrete(c)
+
+	p := cc.A
+	if f.idx == 1 {
+		p = cc.B
+	}
+
+	_, _ = fsx.Guard(func() {
+		if !f.dirItself {
+			p = s.w.v.Dir(p)
+		}
+
+		_, err := s.w.v.Lstat(p)
+		missing = err != nil
+	})
+
+	return missing
 }
 
 // values returns the portable rendering of what a successful call returned on
